@@ -5,7 +5,8 @@
  * message.c, util/string.c.  Stubs (harness): configuration record, filtering
  * (always PASS), dispatch (records the message), error handler (counts), the
  * data source registry: "a" echoes its argument, "f" fails with its argument
- * as error text, every other name is unknown.
+ * as error text, "n" succeeds and "g" fails without writing anything, every
+ * other name is unknown.
  *
  * Oracle: independent reference expander below.
  *
@@ -62,7 +63,7 @@ int snoopy_action_log_message_dispatch(const char *m)
     g_dispatched++;
     g_out_len = n;
     V_ASSERT(n <= LMAX, "C05: message never exceeds log_message_max_length");
-    if (n <= LMAX) { memcpy(g_out, m, n); g_out[n] = 0; }
+    if (n <= LMAX) { for (size_t i = 0; i < n; i++) g_out[i] = m[i]; g_out[n] = 0; }
     return 1;
 }
 
@@ -70,13 +71,17 @@ static size_t g_ds_bufsize_seen;
 static int    g_ds_calls;
 int snoopy_datasourceregistry_doesNameExist(char const * const name)
 {
-    return (name[0] == 'a' || name[0] == 'f') && name[1] == '\0';
+    return (name[0] == 'a' || name[0] == 'f' || name[0] == 'n' || name[0] == 'g') && name[1] == '\0';
 }
 int snoopy_datasourceregistry_callByName(char const * const name, char * const buf, size_t bufsize, char const * const arg)
 {
     g_ds_calls++;
     g_ds_bufsize_seen = bufsize;
     V_ASSERT(bufsize >= 1 && bufsize <= (size_t)DMAX + 1, "C05: a data source is given room for at most datasource_message_max_length bytes (+NUL)");
+    /* 'n' succeeds and 'g' fails WITHOUT writing anything (like the real noop, or cwd when getcwd() fails):
+     * their contribution is the empty string, never what an earlier tag left in the scratch buffer */
+    if (name[0] == 'n') return 0;
+    if (name[0] == 'g') return SNOOPY_DATASOURCE_FAILURE;
     /* echo, the way every real source does it: snprintf(buf, bufsize, "%s", arg) */
     size_t i = 0;
     for (; arg[i] != '\0' && i + 1 < bufsize; i++) buf[i] = arg[i];
@@ -140,7 +145,7 @@ static void reference(const char *fmt)
         size_t ns = t + 2, ne = ns;
         while (ne < c && fmt[ne] != ':') ne++;
         size_t as = (ne < c) ? ne + 1 : c;      /* argument start (empty if no ':') */
-        int known = (ne - ns == 1) && (fmt[ns] == 'a' || fmt[ns] == 'f');
+        int known = (ne - ns == 1) && (fmt[ns] == 'a' || fmt[ns] == 'f' || fmt[ns] == 'n' || fmt[ns] == 'g');
         if (!known) {
             r_puts(T_DS);
             r_put(fmt + ns, ne - ns);
@@ -150,7 +155,8 @@ static void reference(const char *fmt)
         }
         size_t alen = c - as;
         if (alen > DMAX) alen = DMAX;           /* no source contributes more than D bytes */
-        if (fmt[ns] == 'f') {
+        if (fmt[ns] == 'n' || fmt[ns] == 'g') alen = 0;     /* sources that write nothing contribute nothing */
+        if (fmt[ns] == 'f' || fmt[ns] == 'g') {
             r_puts(T_DS);
             r_put(fmt + ns, 1);
             r_puts(T_FAILED);
@@ -164,9 +170,14 @@ static void reference(const char *fmt)
     r_exact = r_len;
 }
 
+static int bytes_eq(const char *a, const char *b, size_t n)
+{
+    for (size_t i = 0; i < n; i++) if (a[i] != b[i]) return 0;     /* plain loop: memcmp/memcpy go through CBMC's array theory */
+    return 1;
+}
+
 static void run_and_check(void)
 {
-    memset(&g_cfg, 0, sizeof g_cfg);
     g_cfg.initialized = SNOOPY_TRUE;
     g_cfg.filtering_enabled = SNOOPY_TRUE;
     g_cfg.filter_chain = "";
@@ -186,22 +197,27 @@ static void run_and_check(void)
     if (r_len <= LMAX && r_len < REFCAP && !r_long_tag) {
         if (!r_stopped) {
             V_ASSERT(g_out_len == r_len, "C05: full expansion fits => emitted with exact length");
-            V_ASSERT(memcmp(g_out, r_out, r_len) == 0, "C05: full expansion fits => emitted byte for byte");
+            V_ASSERT(bytes_eq(g_out, r_out, r_len), "C05: full expansion fits => emitted byte for byte");
         } else {
             /* after an error text for an unknown / unterminated tag the code may stop
              * (today's behaviour) or continue: only the prefix through the error text is required */
             V_ASSERT(g_out_len >= r_len, "C05: error text for unknown/unterminated tag present");
-            V_ASSERT(memcmp(g_out, r_out, r_len) == 0, "C05: expansion up to and including the error text is exact");
+            V_ASSERT(bytes_eq(g_out, r_out, r_len), "C05: expansion up to and including the error text is exact");
         }
     }
 }
 
 #ifndef TAGLEN
-/* mode SYM: every byte of the format symbolic */
+/* mode SYM: every byte of the format symbolic; with -DTEMPLATE="..": bytes marked '?' symbolic, the others fixed
+ * (longer multi-tag formats at the price of a few symbolic bytes) */
 void harness(void)
 {
     V_HAVOC_IN();
     IN.fmt[FCAP] = '\0';
+#ifdef TEMPLATE
+    { static const char tmpl_[] = TEMPLATE;
+      for (unsigned i_ = 0; i_ < sizeof tmpl_ - 1 && i_ < FCAP; i_++) if (tmpl_[i_] != '?') IN.fmt[i_] = tmpl_[i_]; }
+#endif
     run_and_check();
     V_WITNESS();
 }
